@@ -79,6 +79,37 @@ def one_case(rec, tap, rng, cid):
         far = spec["zmax"] - truth["full"]["contact_point"]
         a = -float(rng.uniform(.3, 1.2) * depth)
         b = float(rng.uniform(.05, 1.1) * far)
+        r_ = rng.random()
+        if r_ < .2:
+            # one-sided interval
+            if rng.random() < .5:
+                a = -np.inf
+            else:
+                b = np.inf
+            rec.event("one-sided contact-point-relative intervals")
+        elif r_ < .5:
+            # the contact point is held at the caller's value and the bounds
+            # fall exactly on sample abscissae (closed interval: those
+            # samples are used)
+            cpf = float(p0["contact_point"].value)
+            p0["contact_point"].vary = False
+            below, above = xs[xs < cpf], xs[xs > cpf]
+
+            def aligned(cands, fallback):
+                for _ in range(8):
+                    if cands.size == 0:
+                        break
+                    xv = float(cands[int(rng.integers(cands.size))])
+                    for d_ in (xv - cpf, np.nextafter(xv - cpf, np.inf),
+                               np.nextafter(xv - cpf, -np.inf)):
+                        if cpf + d_ == xv:
+                            return float(d_), True
+                return fallback, False
+            a, oka = aligned(below, a)
+            b, okb = aligned(above, b)
+            if oka or okb:
+                rec.event("relative intervals with bounds on sample "
+                          "abscissae (contact point held)", int(oka) + int(okb))
         if rng.random() < .2:
             a, b = b, a
         kw["range_x"] = [a, b]
